@@ -3,6 +3,8 @@
 Streams (correspondence, implementation vs Lean model `Core/Narrow.lean`)
   narrow   : constrain_value(V, constraint built exactly as the checker builds it, both polarities)   vs `narrow`
   narrowb  : the same for and / or / not combinations (AndConstraint.make / OrConstraint.make / invert) vs `narrowB`
+  match    : `match x: case …` statements through the checker (patma), types revealed in every case body and after the
+             statement vs `matchBody` / `matchAfter`; the same module is executed by CPython for the property search
   e2e      : `def f(x: T): if <cond>: reveal_type(x) else: reveal_type(x)` through the checker (inferred Value decoded
              structurally) vs `narrow` / `narrowB`
   bool     : get_boolability(V)                                                                         vs `getBool`
@@ -50,6 +52,14 @@ ANCHORS = [
     ("pyanalyze/name_check_visitor.py", "NameCheckVisitor._visit_possible_constraint"),
     ("pyanalyze/name_check_visitor.py", "NameCheckVisitor.visit_If"),
     ("pyanalyze/name_check_visitor.py", "NameCheckVisitor.visit_BoolOp"),
+    ("pyanalyze/name_check_visitor.py", "NameCheckVisitor._visit_single_compare"),
+    ("pyanalyze/name_check_visitor.py", "NameCheckVisitor.visit_Match"),
+    ("pyanalyze/patma.py", "PatmaVisitor.visit_MatchSingleton"),
+    ("pyanalyze/patma.py", "PatmaVisitor.visit_MatchValue"),
+    ("pyanalyze/patma.py", "PatmaVisitor.visit_MatchOr"),
+    ("pyanalyze/patma.py", "PatmaVisitor.visit_MatchAs"),
+    ("pyanalyze/patma.py", "PatmaVisitor.visit_MatchClass"),
+    ("pyanalyze/patma.py", "AlwaysMatching"),
 ]
 RULE = (
     "values V: every atom of the vocabulary (classes, literals, type[...], NewType, Never, one-argument generics, tuple forms) "
@@ -59,6 +69,11 @@ RULE = (
     "near V (classes above/below/beside the classes of V, literals of V and of its members), both polarities; boolean "
     "combinations of 2-3 leaves with not/and/or; objects: the fixed small-object list (scalars, class objects, containers of "
     "<=2 scalars) plus objects generated from V; end to end: the same triples spelled as source where a spelling exists. "
+    "every comparison in both operand orders (`len(x) < 2` and `2 < len(x)`, `x == 1` and `1 == x`, `x is None` and `None is x`); "
+    "match statements (1-4 cases of singleton / value / class / or / wildcard patterns, bodies falling through or returning) over "
+    "subjects mixing ==-equal literals of different types (1/True, 0/False, None, enum members, int/bool/float classes), the "
+    "generated module is really executed by CPython on every object of the declared type and the object must belong to the type "
+    "revealed in the body that ran and after the statement (singleton patterns are identity tests: no equality exemption). "
     "Excluded per the quantifier: objects on which the test raises, `is` with a non-singleton, ==/in where equality with a "
     "tested literal does not imply identity of type and structure (bool/int, IntEnum/int, set/frozenset), str containers. "
     "non-trivial = the narrowed type differs from V in at least one branch; distinct by (V, cond) text"
@@ -89,7 +104,7 @@ FIXED_CLASSES = {"alwaysTrueWrong"}  # /repo c376956 (abstract base classes and 
 
 
 def live_cls(names):
-    names = [x for x in names if x != "-" and x not in FIXED_CLASSES]
+    names = [x for x in names if x != "-" and x not in fixed_classes()]
     return names[0] if names else None
 
 
@@ -121,19 +136,55 @@ def liveBool : BoolTable where
   typeBoolExactL := [%s]
   enumCountL := [%s]
   mutableL := [%s]
+  lenRevMirrored := %s
 
 end Pya.C02
 """ % (", ".join(map(str, rows_b)), ", ".join(map(str, rows_x)), ", ".join(map(str, counts)),
-       ", ".join("true" if m else "false" for m in mut))
+       ", ".join("true" if m else "false" for m in mut), "true" if lenrev_mirrored() else "false")
     ch2 = lean.write_if_changed(os.path.join(lean.LEAN, "PyaModel", "Generated", "NarrowTables.lean"), text)
     ctx.extra["tables_regenerated"] = {"class_table_changed": changed, "narrow_tables_changed": ch2, "classes": len(V.CLASSES)}
+
+
+_LENREV = []
+
+
+def lenrev_mirrored():
+    """Behavioural probe of `_visit_single_compare` on the live tree: is `2 < len(x)` narrowed like `len(x) > 2` (operator
+    mirrored, True) or like `len(x) < 2` (operator used as written, False: the defect `reversedLenCompare`)?  The answer is
+    regenerated into Generated/NarrowTables.lean (`lenRevMirrored`), so the model follows the code."""
+    if not _LENREV:
+        src = ("from typing import Union\nfrom typing_extensions import reveal_type\n"
+               "def f(x: Union[tuple[int], tuple[int, int, int]]) -> None:\n    if 2 < len(x):\n        reveal_type(x)\n")
+        _, tree, _ = pya.check_source(src, annotate=True)
+        val = None
+        for node in ast.walk(tree):
+            if isinstance(node, ast.Call) and isinstance(node.func, ast.Name) and node.func.id == "reveal_type":
+                val = getattr(node.args[0], "inferred_value", None)
+        val = strip_constraint_ext(val) if val is not None else None
+        if isinstance(val, PV.SequenceValue) and len(val.members) == 3:
+            _LENREV.append(True)
+        elif isinstance(val, PV.SequenceValue) and len(val.members) == 1:
+            _LENREV.append(False)
+        else:
+            raise RuntimeError("cannot recognise how `2 < len(x)` is narrowed any more: %r" % (val,))
+    return _LENREV[0]
+
+
+def fixed_classes():
+    """exception classes repaired in /repo: a failing input of such a class is a new violation again"""
+    return FIXED_CLASSES | ({"reversedLenCompare"} if lenrev_mirrored() else set())
+
+
+MIRROR = {"eq": "eq", "ne": "ne", "lt": "gt", "le": "ge", "gt": "lt", "ge": "le"}
 
 
 # ------------------------------------------------------------------ conditions
 # leaf conds: ("isinst", [cids]) ("issub", [cids]) ("is", obj) ("isnot", obj) ("eq", obj) ("ne", obj) ("in", cont) ("notin", cont)
 #   ("truthy",) ("len", op, n) ("typeis", ty) ("typeguard", ty) ("mclass", cid) ("ainst", cid) ("ais", obj)
 # combinations: ("not", b) ("and", [bs]) ("or", [bs])
-LEAF = {"isinst", "issub", "is", "isnot", "eq", "ne", "in", "notin", "truthy", "len", "typeis", "typeguard", "mclass", "ainst", "ais"}
+#   ("lenrev", op, n) = `n op len(x)` (literal on the left); ("swap", c) = c in ("eq","ne","is","isnot") spelled `l == x`
+LEAF = {"isinst", "issub", "is", "isnot", "eq", "ne", "in", "notin", "truthy", "len", "lenrev", "typeis", "typeguard", "mclass", "ainst",
+        "ais", "swap"}
 
 
 def is_leaf(c):
@@ -142,6 +193,10 @@ def is_leaf(c):
 
 def cond_sexp(c):
     k = c[0]
+    if k == "swap":
+        return cond_sexp(c[1])   # `l == x` builds the same constraint as `x == l` (EqualsPredicate is symmetric)
+    if k == "lenrev":
+        return "(lenrev %s %d)" % (c[1], c[2])
     if k in ("isinst", "issub"):
         return "(%s %s)" % (k, " ".join(map(str, c[1])))
     if k in ("is", "isnot", "eq", "ne", "in", "notin", "ais"):
@@ -162,6 +217,8 @@ def cond_sexp(c):
 
 
 def leaves(c):
+    if c[0] == "swap":
+        return [c[1]]
     if is_leaf(c):
         return [c]
     if c[0] == "not":
@@ -192,6 +249,14 @@ def build_constraint(c, checker):
     if k == "len":
         return NameCheckVisitor._constraint_from_predicate_provider(
             None, PredicateProvider(VN, len_of_value, len_transformer), c[2], OPS[c[1]][0]())
+    if k == "lenrev":
+        # `_visit_single_compare` passes the operator of `n op len(x)` on as it is, or mirrored (probed on the live tree;
+        # the end-to-end stream goes through the real visitor)
+        op = MIRROR[c[1]] if lenrev_mirrored() else c[1]
+        return NameCheckVisitor._constraint_from_predicate_provider(
+            None, PredicateProvider(VN, len_of_value, len_transformer), c[2], OPS[op][0]())
+    if k == "swap":
+        return build_constraint(c[1], checker)
     if k == "typeis":
         return Constraint(VN, ConstraintType.predicate, True, IsAssignablePredicate(V.ty_to_value(c[1]), checker, positive_only=False))
     if k == "typeguard":
@@ -311,6 +376,20 @@ def py_holds(c, o):
             return (o in cont) if k == "in" else (o not in cont)
         if k == "truthy":
             return bool(o)
+        if k == "swap":
+            kk, l = c[1][0], V.obj_to_py(c[1][1])
+            if kk in ("is", "isnot"):
+                if not (l is None or isinstance(l, (bool, enum.Enum, type))):
+                    raise Undefined()
+                return (l is o) if kk == "is" else (l is not o)
+            if not _eq_safe(o, l):
+                raise Undefined()
+            return (l == o) if kk == "eq" else (l != o)
+        if k == "lenrev":
+            if isinstance(o, type):
+                raise Undefined()
+            return {"eq": lambda a, b: a == b, "ne": lambda a, b: a != b, "lt": lambda a, b: a < b, "le": lambda a, b: a <= b,
+                    "gt": lambda a, b: a > b, "ge": lambda a, b: a >= b}[c[1]](c[2], len(o))
         if k == "len":
             if isinstance(o, type):
                 raise Undefined()  # len(EnumClass) is defined through the metaclass; class objects are left out of `len` tests
@@ -345,8 +424,10 @@ def tested_ty(c):
         return c[1]
     if k in ("mclass", "ainst"):
         return ("typed", c[1])
-    if k in ("truthy", "len"):
+    if k in ("truthy", "len", "lenrev"):
         return ("union", [])
+    if k == "swap":
+        return tested_ty(c[1])
     if k == "not":
         return tested_ty(c[1])
     return ("union", [tested_ty(x) for x in c[1]])
@@ -380,7 +461,7 @@ def atoms():
     return out
 
 
-UNION_ATOMS = [("typed", G.INT), ("typed", G.BOOL), ("typed", G.FLOAT), ("typed", G.STR), ("known", ("none",)), ("typed", V.CID[U.A]),
+UNION_ATOMS = [("seq", G.TUPLE, [("typed", G.STR), ("typed", G.INT), ("typed", G.INT)]), ("typed", G.INT), ("typed", G.BOOL), ("typed", G.FLOAT), ("typed", G.STR), ("known", ("none",)), ("typed", V.CID[U.A]),
                ("typed", V.CID[U.B]), ("typed", V.CID[U.Cc]), ("typed", V.CID[U.Color]), ("known", ("int", 1)), ("known", ("bool", 1)),
                ("known", ("str", "a")), ("typed", G.LIST), ("seq", G.TUPLE, [("typed", G.INT)]),
                ("seq", G.TUPLE, [("typed", G.INT), ("typed", G.STR)]), ("typed", G.HASHABLE), ("subclass", V.CID[U.A]),
@@ -446,12 +527,13 @@ def gen_leaf(rng, Vt, kinds=None):
         return (k, [pick_cls() for _ in range(n)])
     if k in ("is", "isnot", "ais"):
         cands = [l for l in literals_near(rng, Vt) if l[0] in ("none", "bool", "cls") or (l[0] == "inst" and l[1] in ENUMS)]
-        return (k, rng.choice(cands) if cands and rng.random() < 0.7 else rng.choice(SINGLETONS))
+        c = (k, rng.choice(cands) if cands and rng.random() < 0.7 else rng.choice(SINGLETONS))
+        return ("swap", c) if k != "ais" and rng.random() < 0.3 else c
     if k in ("eq", "ne"):
         for _ in range(10):
             l = rng.choice(literals_near(rng, Vt))
             if no_cross_eq([l], Vt):
-                return (k, l)
+                return ("swap", (k, l)) if rng.random() < 0.3 else (k, l)
         return (k, ("str", "zz"))
     if k in ("in", "notin"):
         for _ in range(10):
@@ -474,7 +556,8 @@ def gen_leaf(rng, Vt, kinds=None):
     if k == "truthy":
         return ("truthy",)
     if k == "len":
-        return ("len", rng.choice(["eq", "eq", "ne", "lt", "le", "gt", "ge"]), rng.choice([0, 1, 1, 2, 2, 3]))
+        return ("lenrev" if rng.random() < 0.45 else "len", rng.choice(["eq", "eq", "ne", "lt", "le", "gt", "ge"]),
+                rng.choice([0, 1, 1, 2, 2, 3]))
     if k in ("typeis", "typeguard"):
         r = rng.random()
         if r < 0.4:
@@ -519,6 +602,10 @@ def std_conds():
             ("in", ("tuple", [("inst", V.CID[U.Color], 0)])), ("notin", ("tuple", [("inst", V.CID[U.Color], 0)])),
             ("notin", ("tuple", [("int", 1), ("none",)])), ("in", ("list", [])), ("notin", ("fset", [("str", "a")]))]
     out += [("truthy",), ("len", "eq", 1), ("len", "eq", 2), ("len", "ne", 0), ("len", "gt", 1), ("len", "le", 0)]
+    # every comparison with the operands exchanged
+    out += [("lenrev", op, n) for op in ("eq", "ne", "lt", "le", "gt", "ge") for n in (1, 2)]
+    out += [("swap", ("eq", ("int", 1))), ("swap", ("ne", ("none",))), ("swap", ("is", ("none",))), ("swap", ("isnot", ("bool", 1))),
+            ("swap", ("eq", ("inst", V.CID[U.Color], 0))), ("swap", ("is", ("inst", V.CID[U.Color], 1)))]
     out += [("typeis", ("typed", G.INT)), ("typeis", ("typed", G.FLOAT)), ("typeis", ("generic", G.LIST, [("typed", G.INT)])),
             ("typeis", ("union", [("typed", G.STR), ("known", ("none",))])), ("typeguard", ("typed", G.STR)),
             ("mclass", G.INT), ("mclass", V.CID[U.Cc]), ("ainst", G.INT), ("ainst", V.CID[U.Cc]), ("ainst", G.FLOAT),
@@ -643,6 +730,16 @@ def gen_triples(ctx):
     return [(Vt, c) for Vt, c in out if no_cross_eq(cond_literals(c), Vt)]
 
 
+def any_swap(c):
+    if c[0] == "swap":
+        return True
+    if c[0] == "not":
+        return any_swap(c[1])
+    if c[0] in ("and", "or"):
+        return any(any_swap(x) for x in c[1])
+    return False
+
+
 def cond_literals(c):
     out = []
     for l in leaves(c):
@@ -660,7 +757,8 @@ def corpus_triples():
         for l in open(path):
             if l.strip():
                 d = json.loads(l)
-                out.append((totuple(d["V"]), totuple(d["cond"])))
+                if "cond" in d:
+                    out.append((totuple(d["V"]), totuple(d["cond"])))
     return out
 
 
@@ -884,6 +982,8 @@ def evaluate(ctx, triples, with_model=True, replaying=False):
             if ln != _len(py) and not isinstance(py, type):
                 ctx.disagree("spec", "len %r" % (py,), _len(py), ln)
     e2e(ctx, triples, impl, model, checker, with_model)
+    if not replaying:
+        match_stream(ctx, checker, with_model)
 
 
 _MVEC = {}
@@ -943,6 +1043,13 @@ def cond_text(c):
         return "x"
     if k == "len":
         return "len(x) %s %d" % (OPS[c[1]][1], c[2])
+    if k == "lenrev":
+        return "%d %s len(x)" % (c[2], OPS[c[1]][1])
+    if k == "swap":
+        s = lit_src(c[1][1])
+        if s is None or c[1][1][0] == "fset":
+            return None
+        return "%s %s x" % (s, {"is": "is", "isnot": "is not", "eq": "==", "ne": "!="}[c[1][0]])
     if k == "not":
         s = cond_text(c[1])
         return None if s is None else "not (%s)" % s
@@ -1066,6 +1173,11 @@ def e2e(ctx, triples, impl, model, checker, with_model):
         c = triples[i][1]
         Vd = dec[0]
         um = unmodelled(Vd, c) or not no_cross_eq(cond_literals(c), Vd)
+        if any_swap(c) and (Vd[0] == "known" or (Vd[0] == "annotated" and Vd[1][0] == "known")):
+            # `1 == x` with x a single literal: `_visit_single_compare` takes the rhs-is-KnownValue branch first and constrains
+            # the *literal* node, i.e. x is not narrowed at all (no narrowing is always sound); not compared with the model
+            um = True
+            ctx.tag("e2e_swap_on_literal_not_narrowed")
         if any_lenient(c, Vd, ARITY[0]):
             continue
         conforms = True
@@ -1114,6 +1226,268 @@ def e2e(ctx, triples, impl, model, checker, with_model):
                       "not belong to the type revealed in that branch" % bool(pol), cls=cls, conforms=conf, stream="e2e-keeps")
 
 
+# ------------------------------------------------------------------ match statements (patma), really executed
+# patterns: ("msingle", obj)  case None/True/False (identity)   ("mvalue", obj)  case 1 / 'a' / Color.RED (==)
+#           ("mclass", cid)   case int():                       ("mwild",)       case _:        ("mor", [pats])
+M_SINGLES = [("none",), ("bool", 1), ("bool", 0)]
+M_VALUES = [("int", 0), ("int", 1), ("int", 2), ("int", -1), ("str", "a"), ("str", ""), ("inst", V.CID[U.Color], 0),
+            ("inst", V.CID[U.Color], 1), ("inst", IE, 0)]
+M_CLASSES = [G.INT, G.BOOL, G.STR, G.FLOAT, V.CID[U.Color], V.CID[U.A], V.CID[U.B], G.TUPLE]
+# subjects: declared types containing ==-equal literals of different types (1 / True, 0 / False), Optional / enum / bool mixes
+M_ATOMS = [("known", ("int", 1)), ("known", ("int", 0)), ("known", ("int", 2)), ("known", ("bool", 1)), ("known", ("bool", 0)),
+           ("known", ("none",)), ("known", ("str", "a")), ("known", ("str", "")), ("typed", G.INT), ("typed", G.BOOL),
+           ("typed", G.FLOAT), ("typed", G.STR), ("typed", 0), ("typed", V.CID[U.Color]), ("typed", IE),
+           ("known", ("inst", V.CID[U.Color], 0)), ("known", ("inst", IE, 0)), ("typed", V.CID[U.A]), ("typed", V.CID[U.B]),
+           ("seq", G.TUPLE, [("typed", G.INT)]), ("generic", G.LIST, [("typed", G.BOOL)]), ("typed", G.COMPLEX)]
+
+
+def pat_sexp(p):
+    k = p[0]
+    if k in ("msingle", "mvalue"):
+        return "(%s %s)" % (k, V.obj_sexp(V.canon_obj(p[1])))
+    if k == "mclass":
+        return "(mclass %d)" % p[1]
+    if k == "mwild":
+        return "mwild"
+    return "(mor %s)" % " ".join(pat_sexp(x) for x in p[1])
+
+
+def pat_src(p):
+    k = p[0]
+    if k in ("msingle", "mvalue"):
+        return lit_src(p[1])
+    if k == "mclass":
+        return "%s()" % ty_src(("typed", p[1]))
+    if k == "mwild":
+        return "_"
+    return " | ".join(pat_src(x) for x in p[1])
+
+
+def pat_value_literals(p):
+    if p[0] == "mvalue":
+        return [p[1]]
+    if p[0] == "mor":
+        return [l for x in p[1] for l in pat_value_literals(x)]
+    return []
+
+
+def pat_all_literals(p):
+    if p[0] in ("mvalue", "msingle"):
+        return [p[1]]
+    if p[0] == "mor":
+        return [l for x in p[1] for l in pat_all_literals(x)]
+    return []
+
+
+def gen_pat(rng, top=True):
+    r = rng.random()
+    if r < 0.42:
+        return ("msingle", rng.choice(M_SINGLES))
+    if r < 0.72:
+        return ("mvalue", rng.choice(M_VALUES))
+    if r < 0.86 or not top:
+        return ("mclass", rng.choice(M_CLASSES))
+    return ("mor", [gen_pat(rng, False), gen_pat(rng, False)])
+
+
+def gen_match_case(rng):
+    n = rng.choice([1, 2, 2, 3])
+    members = []
+    for _ in range(n + 1):
+        a = rng.choice(M_ATOMS)
+        if a not in members:
+            members.append(a)
+    Vt = G.norm_term(("union", members))
+    pats = [gen_pat(rng) for _ in range(rng.choice([1, 2, 2, 3]))]
+    if rng.random() < 0.35:
+        pats.append(("mwild",))
+    return Vt, pats, rng.random() < 0.4   # third: every body returns (after the statement = fall-through path only)
+
+
+def std_match_cases():
+    """fixed cases: every singleton pattern against every pair of ==-equal literals of different type"""
+    out = []
+    mixes = [[("known", ("int", 1)), ("known", ("str", "a"))], [("known", ("int", 1)), ("known", ("bool", 1))],
+             [("known", ("int", 0)), ("known", ("bool", 0))], [("known", ("int", 0)), ("known", ("none",))],
+             [("typed", G.INT), ("known", ("none",))], [("typed", G.BOOL), ("known", ("int", 1))],
+             [("typed", G.FLOAT), ("known", ("bool", 1))], [("typed", G.INT), ("typed", G.STR)],
+             [("known", ("int", 1)), ("known", ("int", 0)), ("known", ("bool", 1)), ("known", ("bool", 0)), ("known", ("none",))],
+             [("typed", V.CID[U.Color]), ("known", ("bool", 1)), ("known", ("int", 1))], [("typed", IE), ("known", ("none",))]]
+    for ms in mixes:
+        Vt = G.norm_term(("union", ms))
+        for sg in M_SINGLES:
+            for leave in (False, True):
+                out.append((Vt, [("msingle", sg)], leave))
+                out.append((Vt, [("msingle", sg), ("mwild",)], leave))
+        out.append((Vt, [("msingle", ("bool", 1)), ("msingle", ("bool", 0)), ("msingle", ("none",))], False))
+        out.append((Vt, [("msingle", ("bool", 1)), ("mvalue", ("int", 1)), ("mor", [("msingle", ("none",)), ("mvalue", ("str", "a"))]),
+                         ("mwild",)], False))
+        out.append((Vt, [("mvalue", ("int", 1)), ("msingle", ("bool", 1))], True))
+        out.append((Vt, [("mclass", G.BOOL), ("msingle", ("none",)), ("mvalue", ("int", 0))], False))
+    return out
+
+
+def corpus_match_cases():
+    path = os.path.join(lean.HERE, "corpus", "C02.jsonl")
+    out = []
+    if os.path.exists(path):
+        for l in open(path):
+            if l.strip():
+                d = json.loads(l)
+                if "match" in d:
+                    out.append((totuple(d["V"]), [totuple(p) for p in d["match"]], bool(d.get("leave"))))
+    return out
+
+
+def match_stream(ctx, checker, with_model, cases=None):
+    """`match` statements through the checker, *really executed* on every object of the declared type: the object must
+    belong to the type revealed in the body of the case that runs and to the type revealed after the statement."""
+    import contextlib, io
+    if cases is None:
+        cases = corpus_match_cases() + std_match_cases() + [gen_match_case(ctx.rng) for _ in range(ctx.n(150, 4000))]
+    cases = [(Vt, pats, leave) for Vt, pats, leave in cases
+             if spellable(Vt) and all(pat_src(p) is not None for p in pats)]
+    B = 150
+    for b0 in range(0, len(cases), B):
+        part = cases[b0:b0 + B]
+        src = [PRELUDE.rstrip("\n"), "from typing_extensions import reveal_type"]
+        for j, (Vt, pats, leave) in enumerate(part):
+            src.append("def m%d(x: %s):" % (j, ty_src(Vt)))
+            src.append("    reveal_type(x)")
+            src.append("    r = -1")
+            src.append("    match x:")
+            for i, p in enumerate(pats):
+                src.append("        case %s:" % pat_src(p))
+                src.append("            reveal_type(x)")
+                src.append("            return %d" % i if leave else "            r = %d" % i)
+            src.append("    reveal_type(x)")
+            src.append("    return r")
+        text = "\n".join(src) + "\n"
+        try:
+            fails, tree, _ = pya.check_source(text, annotate=True)
+        except Exception as e:  # noqa: BLE001
+            ctx.obligation_broken("match", "checker crashed on a generated module: %r" % (e,))
+            continue
+        ns = {}
+        with contextlib.redirect_stderr(io.StringIO()):
+            exec(compile(text, "<c02 match batch>", "exec"), ns)   # the same module, run by CPython
+        revealed = {}
+        for node in ast.walk(tree):
+            if isinstance(node, ast.FunctionDef) and node.name.startswith("m"):
+                vals = []
+                for sub in ast.walk(node):
+                    if isinstance(sub, ast.Call) and isinstance(sub.func, ast.Name) and sub.func.id == "reveal_type":
+                        vals.append((sub.lineno, getattr(sub.args[0], "inferred_value", None)))
+                revealed[int(node.name[1:])] = [v for _, v in sorted(vals, key=lambda q: q[0])]
+        todo = []
+        for j, (Vt, pats, leave) in enumerate(part):
+            vals = revealed.get(j)
+            ctx.count(1, match=1, **{"match_%s" % p[0]: 1 for p in pats})
+            case = {"type": ty_src(Vt), "match": pats, "leave": leave, "patterns": [pat_src(p) for p in pats],
+                    "spats": "(%s)" % " ".join(pat_sexp(p) for p in pats)}
+            if not vals or len(vals) != len(pats) + 2 or vals[0] is None:
+                ctx.tag("match_not_revealed")
+                continue
+            dec = []
+            for v in vals:
+                try:
+                    dec.append(None if v is None else V.value_to_ty(strip_constraint_ext(v)))
+                except V.Unencodable:
+                    dec.append(None)   # e.g. the unreachable code after an exhaustive statement whose bodies all return
+            if dec[0] is None:
+                ctx.tag("match_unencodable")
+                continue
+            Vd = dec[0]
+            case["V"] = Vd
+            case["sV"] = V.ty_sexp(Vd)
+            todo.append((j, Vd, pats, leave, dec, case))
+        model = None
+        if with_model and todo:
+            lines = []
+            for j, Vd, pats, leave, dec, case in todo:
+                for i in range(len(pats)):
+                    lines.append("match %s %s %d" % (case["sV"], case["spats"], i))
+                lines.append(("match %s %s %d" % (case["sV"], case["spats"], len(pats))) if leave
+                             else "matchafter %s %s" % (case["sV"], case["spats"]))
+            out = lean.run_driver("C02", lines)
+            model, pos = [], 0
+            for j, Vd, pats, leave, dec, case in todo:
+                model.append(out[pos:pos + len(pats) + 1])
+                pos += len(pats) + 1
+        lost = []
+        for n, (j, Vd, pats, leave, dec, case) in enumerate(todo):
+            lits = [l for p in pats for l in pat_all_literals(p)]
+            comparable = no_cross_eq(lits, Vd) and not any(s[0] in ("typed", "generic") and s[1] in _protos() for s in subterms(Vd))
+            conforms = True
+            if model is not None and comparable:
+                for i in range(len(pats) + 1):
+                    r = dec[1 + i]
+                    if r is None:
+                        continue
+                    m = model[n][i]
+                    if leave and i == len(pats) and m == "(union)":
+                        # every object leaves through a case body: the code after the statement is unreachable, what is
+                        # revealed there is not a narrowing result (no object reaches it; the search below confirms that)
+                        ctx.tag("match_after_unreachable")
+                        continue
+                    ctx.corr("match")
+                    if m == "bad-op" or canon_result(r) != canon_sexp_result(m):
+                        conforms = False
+                        ctx.disagree("match", dict(case, body=i if i < len(pats) else "after"), canon_result(r),
+                                     m if m == "bad-op" else canon_sexp_result(m))
+            if canon_result(Vd) != canon_result(dec[1] or Vd):
+                ctx.nontriv("match|" + case["sV"] + "|" + case["spats"])
+            if n % 97 == 0:
+                ctx.sample({"type": case["type"], "patterns": case["patterns"],
+                            "revealed": [None if d is None else V.ty_sexp(d) for d in dec[1:]]})
+            if G.has_any(Vd):
+                continue
+            vlits = [V.obj_to_py(l) for p in pats for l in pat_value_literals(p)]
+            f = ns["m%d" % j]
+            for o, py in objects_for(ctx.rng, Vd, ("truthy",), 2):
+                if not G.member(py, Vd) or property_silent(Vd, o):
+                    continue
+                # the ==/!= exemption of the quantifier applies to *value* patterns only; singleton patterns are identity tests
+                if not all(_eq_safe(py, l) for l in vlits):
+                    continue
+                if not no_cross_eq([o], Vd):
+                    continue
+                with contextlib.redirect_stderr(io.StringIO()):
+                    ran = f(py)
+                body = dec[1 + ran] if ran >= 0 else None
+                after = dec[1 + len(pats)]
+                bad = None
+                if body is not None and not G.member(py, body):
+                    bad = "the body of case %d (`case %s`) runs" % (ran, pat_src(pats[ran]))
+                elif after is not None and (ran < 0 or not leave) and not G.member(py, after):
+                    bad = "execution continues after the match statement (%s)" % ("no case matched" if ran < 0 else "case %d ran" % ran)
+                if bad:
+                    lost.append((case, pats, o, py, ran, bad, conforms))
+                    break
+        dl = []
+        if with_model and lost:
+            dl = lean.run_driver("C02", ["matchcheck %s %s %s" % (c["sV"], c["spats"], V.obj_sexp(V.canon_obj(o)))
+                                         for c, pats, o, py, ran, bad, conf in lost])
+        for n, (case, pats, o, py, ran, bad, conf) in enumerate(lost):
+            l = dl[n] if n < len(dl) else ""
+            cls = live_cls(l.split(" D=")[1].split(",")) if " D=" in l else None
+            model_lost = (" D=" in l) and (l[2] == "0" or l[3] == "0")
+            prog = "def f(x: %s):\n    match x:\n%s" % (case["type"], "".join("        case %s: ...\n" % q for q in case["patterns"]))
+            ctx.candidate(dict(case, object=repr(py), obj=o, ran=ran, driver=l, program=prog),
+                          "match statement really executed with %r: %s, but the object does not belong to the type pyanalyze "
+                          "infers for the subject there" % (py, bad), cls=cls, conforms=conf and model_lost, stream="match-keeps")
+
+
+_PROTOS = []
+
+
+def _protos():
+    if not _PROTOS:
+        from harness.props.c04 import proto_set
+        _PROTOS.append(proto_set())
+    return _PROTOS[0]
+
+
 def strip_constraint_ext(v):
     """reveal_type's argument carries bookkeeping extensions (ConstraintExtension of the truthiness of the name); drop them"""
     from pyanalyze.stacked_scopes import ConstraintExtension
@@ -1138,6 +1512,10 @@ def run_impl_only(ctx):
 
 def replay(ctx, data):
     c = data["case"]
+    if "match" in c:
+        match_stream(ctx, pya.make_checker(), True, cases=[(totuple(c["V"]), [totuple(p) for p in c["match"]], bool(c.get("leave")))])
+        print(json.dumps({"candidates": ctx.candidates[:3], "broken": ctx.broken[:3]}, indent=1, default=str))
+        return 1 if (ctx.candidates or ctx.broken) else 0
     evaluate(ctx, [(totuple(c["V"]), totuple(c["cond"]))], replaying=True)
     print(json.dumps({"candidates": ctx.candidates[:3], "broken": ctx.broken[:3]}, indent=1, default=str))
     return 1 if (ctx.candidates or ctx.broken) else 0
